@@ -119,6 +119,11 @@ impl<'l> PktParser<'l> {
         }
     }
 
+    #[cfg(feature = "verif-hooks")]
+    pub(super) fn get_bytes_for_verif(&mut self, count: usize) -> Result<Vec<u8>, String> {
+        self.get_bytes(count)
+    }
+
     fn get_string(&mut self) -> Result<Vec<u8>, String> {
         let size = self.get_u8()? as usize;
         self.get_bytes(size)
